@@ -1,31 +1,55 @@
 """Single source of truth for MANIFEST.json (scripts/gen_manifest.py)."""
 HOOK_COMMITS = []
 TECH = "deterministic simulation with fault injection: seeded schedule/fault search on a virtual-time asyncio loop"
-NOTE = ("trusted base: CPython asyncio primitives, the SimLoop driver (FIFO ready queue kept, only external "
-        "completions / clock / faults scheduled), the generator's construct classes and the reference interpreter; "
-        "sampled, not enumerated")
+NOTE = ("trusted base: CPython asyncio primitives, the SimLoop driver (FIFO ready queue kept; only arrivals of external "
+        "completions, clock advances and injected faults are scheduled), the generator's construct classes minus "
+        "carve-outs (known_findings.json) and the reference interpreter; executor jobs run at submission (simulated "
+        "pools); sampled, not enumerated: a clean batch is evidence, not proof")
+
+
+def _c(pid, level, tech, text, note=NOTE):
+    return {"property_id": pid, "level": level, "technique": TECH + "; " + tech, "text": text, "note": note}
+
+
 CHECKS = [
-    {"property_id": "C01", "level": "exploration", "technique": TECH + "; oracle = reference interpreter + cross-schedule agreement",
-     "text": "seeded search over (program, input, fault plan, schedule): every run's outcome must equal the outcome of an independent reference evaluation of the declarations, and all schedules of one case must agree; evidence not proof",
-     "note": NOTE},
-    {"property_id": "C02", "level": "exploration", "technique": TECH + "; exact deadlock verdict = quiescent loop with unfinished run",
-     "text": "seeded search with node/collaborator faults; a hang is decided exactly (loop idle, nothing outstanding, run pending), not by timeout",
-     "note": NOTE},
-    {"property_id": "C03", "level": "exploration", "technique": TECH + "; per-invocation argument oracle against the reference",
-     "text": "every body invocation's kwargs (key set + provenance digests) must be one the reference predicts from final input values",
-     "note": NOTE},
-    {"property_id": "C04", "level": "exploration", "technique": TECH + "; invocation multiset vs reference",
-     "text": "multiset of (node, kwargs digest, attempt) invocations never exceeds the reference's and equals it for required nodes on successful runs",
-     "note": NOTE},
-    {"property_id": "C05", "level": "exploration", "technique": TECH + "; failure-token oracle",
-     "text": "with 1-4 failing nodes per program the reported error must carry the token of an exception a required node really raised (or the documented no-result error); no engine artefact, no raise of Exception subclasses, no value on failure",
-     "note": NOTE},
+    _c("C01", "exploration", "oracle = independent reference interpreter of the declarations + cross-schedule agreement",
+       "seeded search over (program, input, fault plan, schedule): every run's outcome must equal the reference evaluation of the declarations and all schedules of one case must agree"),
+    _c("C02", "exploration", "exact deadlock verdict = quiescent loop with an unfinished run; node and collaborator faults",
+       "a hang is decided exactly (loop idle, no gate or timer outstanding, run pending), not by timeout; faults: failing nodes, None/falsy values, unknown switch labels, failing candidates at any depth, raising/slow event managers and stores"),
+    _c("C03", "exploration", "per-invocation argument oracle against the reference",
+       "every body invocation's kwargs (key set + provenance digests of final input values) must be one the reference predicts; None placeholders, Recurrent markers, exception objects and stale iterations change the digest"),
+    _c("C04", "exploration", "invocation multiset vs reference",
+       "multiset of (node, kwargs digest, attempt) invocations never exceeds the reference's and equals it for required nodes on successful runs, with nodes shared between main / switch / one-of scopes"),
+    _c("C05", "exploration", "failure-token oracle",
+       "with 1-4 failing nodes per program the reported error must carry the token of an exception a required node really raised (or the documented no-result error); no engine artefact, no raise for Exception subclasses, no value on failure"),
+    _c("C06", "exploration", "barrier scheduler per dependency depth",
+       "for every depth of every sampled plain DAG all holdable nodes of that depth are withheld until quiescence; each node of the depth must have started"),
+    _c("C07", "exploration", "sequential run histories on one chart + deep state snapshots",
+       "2-4 sequential runs (some failing / cancelled) on one chart: each equals the reference for its input; graph, node_map, class attributes and the caller's dict are unchanged"),
+    _c("C08", "exploration", "k overlapping runs on one simulated loop",
+       "2-4 overlapping chart.run calls with all completions in one scheduler pool, one run sometimes cancelled: each surviving run equals its solo reference"),
+    _c("C09", "exploration", "switch classes incl. shared cases and unknown labels",
+       "executed bodies are a subset of the reference demanded set, the consumer gets the selected case's value, an unknown label ends the run with an error"),
+    _c("C10", "exploration", "one-of classes with failures at any depth; candidate start-order oracle",
+       "winner = first succeeding candidate, laziness and containment via the invocation multiset, candidate-private nodes start only after the previous candidate failed, exhaustion gives OneOfDoesNotHaveResultError"),
+    _c("C11", "exploration", "recurrent class, 0..max+1 requested iterations",
+       "per-iteration invocation multiset: exactly the path set re-executed with additional_data, at most max re-iterations, consumers only see the final value / default, else RecurrentSubgraphDoesNotHaveResultError"),
+    _c("C12", "exploration", "retry configuration x per-attempt outcome plans; virtual-time delay oracle",
+       "attempt counts, identical kwargs per attempt, virtual-time gap >= delay, exception filter, get_default kwargs, BaseException neither retried nor defaulted"),
+    _c("C13", "fault_enumeration", "cancellation injected before EVERY loop handle of each sampled execution",
+       "for each sampled execution the caller's cancel is injected at every crash point; afterwards nothing starts, every task finishes within a bound without further arrivals, the canceller sees CancelledError only"),
+    _c("C14", "exploration", "event-word automaton merged with the body trace",
+       "recording (and slow) event managers: pipeline_start first/once, pipeline_complete last/once with the returned result, (node_start node_complete+)* per node, one complete per attempt with the right error, no value delivered before its successful complete"),
+    _c("C17", "exploration", "6 execution-mode vectors per case; deficient pool registries in dedicated worker interpreters",
+       "every mode assignment yields the reference outcome (simulated pools incl. pickle round trip for process mode); with a needed pool missing / shut down the run fails with an error result, no body invoked, within 60 handles"),
+    _c("C18", "fault_enumeration", "Hypothesis stateful machine vs dict model; every write-call index of a save failed once",
+       "save/load sequences over adversarial keys and shared directories; open() and each write call of a save are failed in turn (torn write), the key must stay absent and a clean save must then succeed",
+       "trusted base: Hypothesis 6.168, the dict model, the fault-injecting Path subclass inside the store module; real files in a temp directory"),
+    _c("C19", "exploration", "recording / write-once artifact store",
+       "on successful reference outcomes each executed node is saved exactly once with its final value, never a Recurrent marker or failure object, and a write-once store does not change the outcome (programs with a RecurrentSubGraph are excluded: known finding K01)"),
 ]
 NOT_APPLICABLE = [
     {"property_id": "C15", "reason": "pure function of the declarations (builder): no schedule, clock, fault or interleaving to simulate - DESIGN.md section 8"},
     {"property_id": "C16", "reason": "pure function of the declarations (build-time validation): no schedule, clock, fault or interleaving to simulate - DESIGN.md section 8"},
     {"property_id": "C20", "reason": "pure function of a built DAG (viewer projection): no schedule, clock, fault or interleaving to simulate - DESIGN.md section 8"},
 ]
-PENDING = ["C06", "C07", "C08", "C09", "C10", "C11", "C12", "C13", "C14", "C17", "C18", "C19"]
-for _p in PENDING:
-    NOT_APPLICABLE.append({"property_id": _p, "reason": "check under construction in this build phase (planned: deterministic simulation, DESIGN.md section 6); not claimed yet"})
